@@ -272,6 +272,25 @@ func (c *Ctx) checkNoLibraryGlobalWrites(rule string) int {
 					}
 				}
 			}
+			if g == nil {
+				// a write through a slice, map or pointer that was read from a package-level variable
+				// (`buf := scratch; buf[i] = …`): the variable is not assigned, what it refers to is
+				var addr ssa.Value
+				switch x := in.(type) {
+				case *ssa.Store:
+					switch x.Addr.(type) {
+					case *ssa.IndexAddr, *ssa.FieldAddr:
+						addr = x.Addr
+					}
+				case *ssa.MapUpdate:
+					addr = x.Map
+				}
+				if addr != nil {
+					if gg := globalBehind(addr, 0, map[ssa.Value]bool{}); gg != nil && gg.Pkg == pk {
+						g = gg
+					}
+				}
+			}
 			if g != nil {
 				n++
 				L.Bad(rule, c.P.FuncName(fn), "write to "+g.Name(), c.P.Pos(in.Pos()), "a library function modifies package-level state: later calls in the same process see it (hidden cache / history dependence)")
@@ -280,4 +299,53 @@ func (c *Ctx) checkNoLibraryGlobalWrites(rule string) int {
 	}
 	L.Trivial(rule, "library packages", "all functions scanned", "-", fmt.Sprintf("%d functions outside cmd, %d writes to package-level state", nf, n))
 	return n
+}
+
+
+// globalBehind: the package-level variable whose value (a slice, map or pointer) the address v is
+// derived from, through element/field addressing, re-slicing, φ-nodes and local variables.
+func globalBehind(v ssa.Value, depth int, seen map[ssa.Value]bool) *ssa.Global {
+	if depth > 10 || seen[v] {
+		return nil
+	}
+	seen[v] = true
+	switch x := v.(type) {
+	case *ssa.IndexAddr:
+		return globalBehind(x.X, depth+1, seen)
+	case *ssa.FieldAddr:
+		return globalBehind(x.X, depth+1, seen)
+	case *ssa.Slice:
+		return globalBehind(x.X, depth+1, seen)
+	case *ssa.ChangeType:
+		return globalBehind(x.X, depth+1, seen)
+	case *ssa.Phi:
+		for _, e := range x.Edges {
+			if g := globalBehind(e, depth+1, seen); g != nil {
+				return g
+			}
+		}
+	case *ssa.UnOp:
+		if x.Op != token.MUL {
+			return nil
+		}
+		if g, ok := x.X.(*ssa.Global); ok {
+			return g
+		}
+		// a local variable that holds the value
+		if a, ok := x.X.(*ssa.Alloc); ok && a.Referrers() != nil {
+			for _, r := range *a.Referrers() {
+				if st, ok := r.(*ssa.Store); ok && st.Addr == ssa.Value(a) {
+					if g := globalBehind(st.Val, depth+1, seen); g != nil {
+						return g
+					}
+				}
+			}
+		}
+		// an element or field that holds a reference
+		switch x.X.(type) {
+		case *ssa.IndexAddr, *ssa.FieldAddr:
+			return globalBehind(x.X, depth+1, seen)
+		}
+	}
+	return nil
 }
